@@ -14,13 +14,14 @@ def build_apps():
 def app(name): return os.path.join(BUILD, "release", name)
 
 class Feed:
-    """loopback server; script = list of steps: ('send', bytes) | ('sleep', seconds) | ('close',) | ('abort',) | ('accept',)"""
+    """loopback server; script = list of steps: ('send', bytes) | ('sleep', seconds) | ('close',) | ('abort',) | ('accept',) | ('repeat_until_flag', bytes, period)"""
     def __init__(self):
         self.sock = socket.socket(socket.AF_INET, socket.SOCK_STREAM)
         self.sock.setsockopt(socket.SOL_SOCKET, socket.SO_REUSEADDR, 1)
         self.sock.bind(("127.0.0.1", 0)); self.sock.listen(4)
         self.port = self.sock.getsockname()[1]
         self.conn = None; self.done = threading.Event(); self.err = None; self.accepted = 0
+        self.flag = threading.Event()       # set by the driver: ends a ('repeat_until_flag', ..) step
     def run(self, script):
         def work():
             try:
@@ -30,6 +31,11 @@ class Feed:
                         self.conn.setsockopt(socket.IPPROTO_TCP, socket.TCP_NODELAY, 1)
                     elif step[0] == "send": self.conn.sendall(step[1])
                     elif step[0] == "sleep": time.sleep(step[1])
+                    elif step[0] == "repeat_until_flag":
+                        # ('repeat_until_flag', bytes, period): keep sending until the driver says stop (traffic that keeps aircraft alive
+                        # exactly as long as the scenario wants them alive, whatever the machine's speed)
+                        while not self.flag.is_set():
+                            self.conn.sendall(step[1]); self.flag.wait(step[2])
                     elif step[0] == "close":
                         try: self.conn.shutdown(socket.SHUT_RDWR)
                         except OSError: pass
